@@ -49,7 +49,7 @@ theorem udp_step (ps : List LayerInfo) (u : Udp) (os : List AnyObj) (hi : u.WF)
   rw [hio] at hp
   have hiol : io.length = region.length - 8 := by rw [← hio]; simp
   refine ⟨out, _, _, hw, hol, parseOne_udp _ _ _ hp, udp_view_of false _ _ hv, ?_⟩
-  apply leaf_stepInner _ _ os io _ rfl (leaf_link (x := .tr (.udp u)) hlink) _ (fun b => udp_view_of b _ _ hv) hnil hraw
+  apply leaf_stepInner _ _ os io _ rfl (leaf_link hlink) _ (fun b => udp_view_of b _ _ hv) hnil hraw
   rw [hiol]
   congr 1
   apply propext
@@ -74,7 +74,7 @@ theorem tcp_step (ps : List LayerInfo) (t : Tcp) (os : List AnyObj) (hi : t.Inv)
   rw [hio] at hp
   have hiol : io.length = region.length - t.hdr := by rw [← hio]; simp
   refine ⟨out, _, _, hw, hol, parseOne_tcp _ _ _ hp, tcp_view_of false t _ _, ?_⟩
-  apply leaf_stepInner _ _ os io _ rfl (leaf_link (x := .tr (.tcp t)) hlink) _ (fun b => tcp_view_of b t _ _) hnil hraw
+  apply leaf_stepInner _ _ os io _ rfl (leaf_link hlink) _ (fun b => tcp_view_of b t _ _) hnil hraw
   rw [hiol]
   congr 1
   apply propext
